@@ -14,7 +14,7 @@ import contextvars
 import hashlib
 
 from . import env
-from .base import Exact, HarnessError, Horizon, PathAbort, is_sym, zand, znot, zor
+from .base import SyncHang, Exact, HarnessError, Horizon, PathAbort, is_sym, zand, znot, zor
 from .vloop import VLoop
 
 _CUR = contextvars.ContextVar('vfw_current_invocation', default=None)
@@ -229,6 +229,17 @@ class Ctx:
     def run(self, main_coro, settle=True):
         """Run main to completion or to the virtual horizon.  Returns True if main finished."""
         loop = self.loop
+        import os
+        import signal
+        import threading
+        limit = float(os.environ.get('VFW_RUN_WALL_LIMIT', '150'))
+        armed = threading.current_thread() is threading.main_thread() and limit > 0
+
+        def _fire(signum, frame):
+            raise SyncHang(f'code under test did not yield to the event loop / finish within {limit:.0f} s of wall time')
+        if armed:
+            old = signal.signal(signal.SIGALRM, _fire)
+            signal.setitimer(signal.ITIMER_REAL, limit)
         try:
             loop.run_until_complete(main_coro)
             return True
@@ -237,6 +248,16 @@ class Ctx:
             self.hang_reason = str(h)
             self.rec('HORIZON', reason=str(h))
             return False
+        except SyncHang as h:
+            # e.g. a synchronous infinite loop inside the library: a hang like any other (the liveness clauses decide)
+            self.hang = True
+            self.hang_reason = str(h)
+            self.rec('HORIZON', reason=str(h))
+            return False
+        finally:
+            if armed:
+                signal.setitimer(signal.ITIMER_REAL, 0)
+                signal.signal(signal.SIGALRM, old)
 
     def teardown(self):
         if self.loop is not None:
